@@ -81,7 +81,7 @@ def check_c05(ctx):
     model_checks(ctx, "MC_asis_nil.cfg", "NoEmptySlot")
     binary = vlib.go_build(ctx, "tq")
     # (R/S) behaviours -> real queue
-    num = ctx.pick(500, 6000)
+    num = ctx.pick(350, 6000)
     behs = gen_behaviours(ctx, num, 60)
     steps, acts, distinct = replay(ctx, binary, behs, "C05/")
     ctx.log("replayed %d behaviours (%d steps) on the real queue: %s" % (len(behs), steps, acts))
@@ -140,7 +140,7 @@ def check_c17(ctx):
         r = vlib.tlc(ctx, SPEC, "TaskQueue", "MC_live.cfg", timeout=1800, expect_violation=False)
         ctx.log("TLC MC_live.cfg (TerminatesAfterStop under weak fairness): %d distinct states, %.0fs" % (r["distinct"], r["wall_s"]))
     binary = vlib.go_build(ctx, "tq")
-    num = ctx.pick(500, 6000)
+    num = ctx.pick(350, 6000)
     behs = gen_behaviours(ctx, num, 60, consts={"StopAfterPicks": "1", "StopAfterOps": "0"})
     # Stop while the worker is in (or about to enter) waitForTask: empty queue, back-off delay, repeat delay
     behs += gen_behaviours(ctx, num, 60, consts={"StopAfterPicks": "0", "StopAfterOps": "0",
@@ -172,7 +172,7 @@ def check_c17(ctx):
     # operator level: Shutdown in the middle of a run of the real operator (queues idle, in a handler, events and ticks
     # still arriving): no execution may start afterwards
     import op
-    n, st = op.e2e(ctx, ("C17/",), ["A", "D"], ctx.pick(30, 300), depth=45, sdafter=ctx.pick(11, 10), nrandom=ctx.pick(5, 30))
+    n, st = op.e2e(ctx, ("C17/",), ["A", "D"], ctx.pick(20, 300), depth=45, sdafter=ctx.pick(11, 10), nrandom=ctx.pick(4, 30))
     ctx.log("operator level: %d behaviours with Shutdown replayed on the real operator: %s" % (n, st))
     ctx.cov["traces_validated_against_impl"] += n
     ctx.cov["operator_level"] = st
